@@ -27,11 +27,11 @@ type sx struct {
 	name string
 }
 
-func sxBase(n string) *sx  { return &sx{op: "base", name: n} }
-func sxEmpty() *sx         { return &sx{op: "empty"} }
-func sxOr(a, b *sx) *sx    { return &sx{op: "or", a: a, b: b} }
-func sxAnd(a, b *sx) *sx   { return &sx{op: "and", a: a, b: b} }
-func sxDiff(a, b *sx) *sx  { return &sx{op: "diff", a: a, b: b} }
+func sxBase(n string) *sx { return &sx{op: "base", name: n} }
+func sxEmpty() *sx        { return &sx{op: "empty"} }
+func sxOr(a, b *sx) *sx   { return &sx{op: "or", a: a, b: b} }
+func sxAnd(a, b *sx) *sx  { return &sx{op: "and", a: a, b: b} }
+func sxDiff(a, b *sx) *sx { return &sx{op: "diff", a: a, b: b} }
 func (s *sx) String() string {
 	switch s.op {
 	case "base":
